@@ -206,10 +206,14 @@ inductive Outcome where
 `rotate`: closing the writer in `rotateAfterSynced` fails (the tail repair succeeds).
 `unlink k`: in `cleanupObsoleteWALs` the removal of the `k`-th obsolete log (0-based) fails.
 `closeWriter`: (only in `Close`) `wal.close()` fails after the flush; the tail repair succeeds.
-`closeWriterNoRepair`: … and the tail repair fails too (the log keeps a torn EOF trailer). -/
+`closeWriterNoRepair`: … and the tail repair fails too (the log keeps a torn EOF trailer).
+`appendFullNoRepair`: the batch is written and synced but the sync is REPORTED as failed, and the
+tail repair (which would cut the batch off again) fails too: the flush reports failure, the store
+is blocked, and the whole batch is on disk ("limbo": a restart will find it).
+`closeManager`: (only in `Close`) `manager.Close()` fails: nothing but the returned error. -/
 inductive Fault where
   | none | append | appendNoRepair | watermark | create | wmSync | rotate | unlink (k : Nat)
-  | closeWriter | closeWriterNoRepair
+  | closeWriter | closeWriterNoRepair | appendFullNoRepair | closeManager
   deriving DecidableEq, Repr
 
 /-- `SetWALEntry` (nil / unsupported entries, which return an error, are not modelled). -/
@@ -255,6 +259,8 @@ structure OpRes where
   out : Outcome
   bases : List (Disk × Bool)
   removed : List LogFile := []
+  /-- the flush reported "not committed" but left the complete batch on disk (`appendFullNoRepair`) -/
+  limbo : Bool := false
 
 /-- `ensureWriter` when no failure is pending: `manager.Create` = create the next log, then
 sync the directory. Returns the store, the directory before and after the directory sync. -/
@@ -288,7 +294,7 @@ def cleanup (s : Store) (d : Disk) (n : Nat) (ft : Fault) : OpRes :=
   let dRen' := { d with wm := some s.idx.pruned, tmp := false, wmAlt := d.wm :: d.wmAlt }
   if ft = .wmSync then
     -- syncDir fails: writePruneWatermark returns the error, nothing else happens
-    ⟨s, dRen', .errCommitted, [(dTmp, true), (dRen, true), (dRen', true)], []⟩
+    ⟨s, dRen', .errCommitted, [(dTmp, true), (dRen, true), (dRen', true)], [], false⟩
   else
     let dWm := { d with wm := some s.idx.pruned, tmp := false, zombies := [], wmAlt := [] }
     -- rotateAfterSynced: the writer is closed (an EOF trailer is appended; when that fails the
@@ -305,14 +311,14 @@ def cleanup (s : Store) (d : Disk) (n : Nat) (ft : Fault) : OpRes :=
     let s'' := { s' with known := s.known.filter (fun k => !decide (k < minLive)) }
     ⟨if failed then s'' else { s'' with sinceCleanup := 0 }, dGc, if failed then .errCommitted else .ok,
       [(dTmp, true), (dRen, true), (dRen', true), (dWm, true), (dTrail, true), (dWm, true), (dGc, true)],
-      dGc.zombies⟩
+      dGc.zombies, false⟩
 
 /-- `flushLocked`. -/
 def flushLocked (s : Store) (d : Disk) (ft : Fault) : OpRes :=
-  if s.closed then ⟨s, d, .closed, [(d, false)], []⟩
-  else if s.pending.isEmpty then ⟨s, d, .ok, [(d, false)], []⟩
-  else if s.repairRequired then ⟨s, d, .errNotCommitted, [(d, false)], []⟩
-  else if ft = .create && s.writer.isNone then ⟨s, d, .errNotCommitted, [(d, false)], []⟩
+  if s.closed then ⟨s, d, .closed, [(d, false)], [], false⟩
+  else if s.pending.isEmpty then ⟨s, d, .ok, [(d, false)], [], false⟩
+  else if s.repairRequired then ⟨s, d, .errNotCommitted, [(d, false)], [], false⟩
+  else if ft = .create && s.writer.isNone then ⟨s, d, .errNotCommitted, [(d, false)], [], false⟩
   else
     let n := s.writer.getD s.nextWAL
     let s1 := (ensureWriter s d).1
@@ -324,10 +330,13 @@ def flushLocked (s : Store) (d : Disk) (ft : Fault) : OpRes :=
     if ft = .append then
       -- abortUncommitted: close the writer, truncate back to the synced offset
       ⟨{ s1 with writer := none }, d1, .errNotCommitted,
-        bs1 ++ [(dTorn, false), (dFull, true), (d1, false)], []⟩
+        bs1 ++ [(dTorn, false), (dFull, true), (d1, false)], [], false⟩
     else if ft = .appendNoRepair then
       ⟨{ s1 with writer := none, repairRequired := true }, dTorn, .errNotCommitted,
-        bs1 ++ [(dTorn, false)], []⟩
+        bs1 ++ [(dTorn, false)], [], false⟩
+    else if ft = .appendFullNoRepair then
+      ⟨{ s1 with writer := none, repairRequired := true }, dFull, .errNotCommitted,
+        bs1 ++ [(dTorn, false), (dFull, true)], [], true⟩
     else
       -- appended and synced; updateIndexesFromCommittedRecords
       let s2 := { s1 with idx := s1.idx.applyRecs n s.pending, pending := [],
@@ -335,13 +344,13 @@ def flushLocked (s : Store) (d : Disk) (ft : Fault) : OpRes :=
       let bs2 := bs1 ++ [(dTorn, false), (dFull, true)]
       let prunes := countPrunes s.pending
       -- removeObsoleteWALFiles
-      if prunes = 0 then ⟨s2, dFull, .ok, bs2, []⟩
+      if prunes = 0 then ⟨s2, dFull, .ok, bs2, [], false⟩
       else
         let s3 := { s2 with sinceCleanup := s.sinceCleanup + prunes }
-        if s.sinceCleanup + prunes < cleanupInterval then ⟨s3, dFull, .ok, bs2, []⟩
+        if s.sinceCleanup + prunes < cleanupInterval then ⟨s3, dFull, .ok, bs2, [], false⟩
         else if ft = .watermark then
           ⟨s3, { dFull with tmp := false }, .errCommitted,
-            bs2 ++ [({ dFull with tmp := true }, true), ({ dFull with tmp := false }, true)], []⟩
+            bs2 ++ [({ dFull with tmp := true }, true), ({ dFull with tmp := false }, true)], [], false⟩
         else
           let r := cleanup s3 dFull n ft
           { r with bases := bs2 ++ r.bases }
@@ -362,6 +371,7 @@ def flushTags (s : Store) (ft : Fault) : List String :=
     let bs1 := ["pre", "created", "synced"]
     if ft = .append then bs1 ++ ["torn", "full", "repaired"]
     else if ft = .appendNoRepair then bs1 ++ ["torn"]
+    else if ft = .appendFullNoRepair then bs1 ++ ["torn", "full"]
     else
       let bs2 := bs1 ++ ["torn", "full"]
       if countPrunes s.pending = 0 then bs2
@@ -380,18 +390,18 @@ def Outcome.committed : Outcome → Bool
 
 /-- `Close`. -/
 def closeStore (s : Store) (d : Disk) (ft : Fault) : OpRes :=
-  if s.closed then ⟨s, d, .ok, [(d, false)], []⟩
+  if s.closed then ⟨s, d, .ok, [(d, false)], [], false⟩
   else
     let r := flushLocked s d ft
     let dTrail := match r.st.writer with
       | some n => r.disk.setGarbage n true
       | none => r.disk
     -- wal.close(): closeAndRepairCurrent; errors.Join(flushErr, closeErr, …)
-    let closeFails := (ft = .closeWriter || ft = .closeWriterNoRepair) && r.st.writer.isSome
+    let closeFails := ((ft = .closeWriter || ft = .closeWriterNoRepair) && r.st.writer.isSome) || ft = .closeManager
     let out := if closeFails && r.out = .ok then .errCommitted else r.out
     let dEnd := if ft = .closeWriterNoRepair && r.st.writer.isSome then dTrail else r.disk
     ⟨{ r.st with closed := true, writer := none }, dEnd, out,
-      r.bases ++ [(dTrail, r.out.committed), (r.disk, r.out.committed)], r.removed⟩
+      r.bases ++ [(dTrail, r.out.committed || r.limbo), (r.disk, r.out.committed || r.limbo)], r.removed, r.limbo⟩
 
 /-- `recoverLatestWALTail`: the invalid tail of the latest log is cut off. -/
 def clearLastGarbage : List LogFile → List LogFile
@@ -441,6 +451,9 @@ structure Sys where
   calls : List Rec := []
   /-- ghost: every log file removed by the cleanup so far -/
   removed : List LogFile := []
+  /-- ghost: the calls of a batch that a flush reported as not committed although it is completely on
+  disk (`appendFullNoRepair`; the store is blocked from then on): a restart brings them back -/
+  limbo : List Rec := []
   deriving Repr
 
 /-- Operations a crash can interrupt. -/
@@ -492,7 +505,8 @@ def Sys.step (sys : Sys) : Op → Sys × Outcome
     ({ sys with st := r.st, disk := r.disk,
                 acked := if r.out.committed then sys.acked ++ sys.calls else sys.acked,
                 calls := if r.out.committed then [] else sys.calls,
-                removed := sys.removed ++ r.removed },
+                removed := sys.removed ++ r.removed,
+                limbo := if r.limbo then sys.calls else sys.limbo },
      r.out)
   | .close ft =>
     if !sys.alive then (sys, .dead) else
@@ -500,20 +514,22 @@ def Sys.step (sys : Sys) : Op → Sys × Outcome
     ({ sys with st := r.st, disk := r.disk,
                 acked := if r.out.committed && !sys.st.closed then sys.acked ++ sys.calls else sys.acked,
                 calls := if r.out.committed && !sys.st.closed then [] else sys.calls,
-                removed := sys.removed ++ r.removed },
+                removed := sys.removed ++ r.removed,
+                limbo := if r.limbo then sys.calls else sys.limbo },
      r.out)
   | .reopen =>
     if sys.alive && !sys.st.closed then (sys, .bad) else
     match openStore sys.disk with
-    | .ok (s, d) => ({ sys with alive := true, st := s, disk := d, calls := [] }, .ok)
+    | .ok (s, d) => ({ sys with alive := true, st := s, disk := d, calls := [],
+                                acked := sys.acked ++ sys.limbo, limbo := [] }, .ok)
     | .error _ => ({ sys with alive := false }, .openFailed)
   | .crash c i mask alt =>
     match (sys.bases c)[i]? with
     | none => (sys, .bad)
     | some (b, infl) =>
       ({ sys with alive := false, disk := b.resurrect mask alt,
-                  acked := if infl then sys.acked ++ sys.calls else sys.acked,
-                  calls := [] }, .ok)
+                  acked := if infl then sys.acked ++ sys.calls else sys.acked ++ sys.limbo,
+                  calls := [], limbo := [] }, .ok)
 
 def Sys.run (sys : Sys) (ops : List Op) : Sys := ops.foldl (fun s o => (s.step o).1) sys
 
@@ -523,10 +539,6 @@ def Sys.init : Sys := {}
 
 /-! ### Aliasing (record.go `setEntry`) -/
 
-/-- Set to `true` once `setEntry` copies `Proposal.Value` / `Vote.ID` (proposed-fixes/
-C14-setentry-deep-copy.diff): the caller can then no longer reach the buffered entry. -/
-def aliasFixed : Bool := false
-
 def pokeAt : List Rec → Nat → Nat → List Rec
   | [], _, _ => []
   | .entry h _ :: rs, 0, e' => .entry h e' :: rs
@@ -534,11 +546,15 @@ def pokeAt : List Rec → Nat → Nat → List Rec
   | r :: rs, i + 1, e' => r :: pokeAt rs i e'
 
 /-- Not an API call: the caller writes through the `*Value` / `*ID` pointer of an entry it has
-already handed to `SetWALEntry`. `setEntry` copies the entry struct but not what these pointers
-refer to, so the `i`-th buffered record now carries a different payload (`e'`) when it is encoded
-at Flush time. -/
-def Store.poke (s : Store) (i e' : Nat) : Store :=
-  if aliasFixed then s else { s with pending := pokeAt s.pending i e' }
+already handed to `SetWALEntry`. Since juno commit b8b5501 `setEntry` copies what these pointers
+refer to, so the buffered record is out of the caller's reach: nothing changes. -/
+def Store.poke (s : Store) (_i _e' : Nat) : Store := s
+
+/-- The same event on the code BEFORE b8b5501 (regression witness only): `setEntry` copied the entry
+struct but not what `Proposal.Value` / `Vote.ID` point to, so the `i`-th buffered record carried the
+later payload `e'` when it was encoded at Flush time. -/
+def Store.pokeBefore_b8b5501 (s : Store) (i e' : Nat) : Store :=
+  { s with pending := pokeAt s.pending i e' }
 
 /-! ### What the property says a restarted validator must see -/
 
